@@ -661,7 +661,10 @@ class Lower:
         gens, elt = self._comp_parts(n.loop)
         if isinstance(elt, E.ComprehensionAppendNode):
             if isinstance(elt, E.DictComprehensionAppendNode):
-                return ast.DictComp(key=self.expr(elt.key_expr), value=self.expr(elt.value_expr), generators=gens)
+                item = getattr(elt, 'dict_item', None)
+                k = item.key if item is not None else elt.key_expr
+                v = item.value if item is not None else elt.value_expr
+                return ast.DictComp(key=self.expr(k), value=self.expr(v), generators=gens)
             e = self.expr(elt.expr)
             tname = type(n.type).__name__ if n.type is not None else ''
             if 'set' in str(getattr(n.type, 'name', '')):
